@@ -27,6 +27,7 @@ EXPLANATION = (
     "comparison of a caught rejection's message in the inverter classes is against a value of FAILURE_CODES. Wire behaviour per "
     "code and timing are not decided."
     ' (R4, shared with C07.R1) no fragment of an earlier transmission survives into a retransmission, so an exception frame is validated on its own.'
+    ' R1 also checks the converse: every validator path that established function code != cmd ends in the RequestRejectedException raise.'
 )
 
 
